@@ -1,4 +1,5 @@
 import OnetVerif.Model.C07
+import OnetVerif.Shapes
 /-! Property C07 — no peer input can crash, wedge or silence a server. -/
 namespace C07
 
@@ -240,5 +241,71 @@ theorem c07_old_lock_left_held : (processOld {} (.sendRoster ⟨.roR, true⟩)).
 example : (runEnvs {} [.treeMarshal ⟨.R, .roR, .good⟩, .sendRoster ⟨.roR, true⟩]).slot .R = .present ∧
     (runEnvs {} [.treeMarshal ⟨.R, .roR, .good⟩, .sendRoster ⟨.roR, true⟩]).delivered = 1 := by
   simp [runEnvs, process, instanceRoster, makeTree, storeAndFlush, upd]
+
+/-! ### the code regions the model stands for
+Regenerated from /repo's source on every run (`harness/cmd/astfacts` → `OnetVerif/Shapes.lean`): the
+calls that matter for synchronisation and data flow, the lock regions and (for decision logic) the
+conditions, in source order.  A re-ordering, a dropped call or a changed condition breaks these
+obligations even when no sampled input or schedule shows a difference; the check then searches for
+a failing input. -/
+theorem c07_shape_Overlay_Process :
+    Shapes.overlay_Overlay_Process =
+   ["MsgType.Equal", "o.handleConfigMessage", "protoIO.getByPacketType", "io.Unwrap",
+     "o.handleRequestTree", "o.handleSendTree", "o.handleSendTreeMarshal",
+     "o.handleRequestRoster", "o.handleSendRoster", "network.MessageType", "o.TransmitMsg"] := rfl
+
+theorem c07_shape_Overlay_handleSendTree :
+    Shapes.overlay_Overlay_handleSendTree =
+   ["if:((rt.TreeMarshal==nil)||rt.TreeMarshal.TreeID.IsNil())", "return:",
+     "if:(rt.Roster==nil)", "return:", "if:!o.treeStorage.IsRequested(rt.TreeMarshal.TreeID)",
+     "return:", "TreeMarshal.MakeTree", "if:(err!=nil)", "return:", "o.RegisterTree"] := rfl
+
+theorem c07_shape_Overlay_handleSendTreeMarshal :
+    Shapes.overlay_Overlay_handleSendTreeMarshal =
+   ["if:tm.TreeID.IsNil()", "return:", "if:!o.treeStorage.IsRequested(tm.TreeID)", "return:",
+     "if:inst.Roster().ID.Equal(tm.RosterID)", "inst.Roster", "if:(ro==nil)", "io.Wrap",
+     "if:(err!=nil)", "server.Send", "if:(err!=nil)", "o.addPendingTreeMarshal", "return:",
+     "o.handleSendTree"] := rfl
+
+theorem c07_shape_Overlay_handleRequestTree :
+    Shapes.overlay_Overlay_handleRequestTree =
+   ["treeStorage.Get", "tree.MakeTreeMarshal", "o.handleRequestTreeDeprecated", "io.Wrap",
+     "server.Send"] := rfl
+
+theorem c07_shape_Overlay_handleRequestRoster :
+    Shapes.overlay_Overlay_handleRequestRoster =
+   ["treeStorage.GetRoster", "io.Wrap", "server.Send"] := rfl
+
+theorem c07_shape_Overlay_handleSendRoster :
+    Shapes.overlay_Overlay_handleSendRoster =
+   ["ID.IsNil", "o.checkPendingTreeMarshal"] := rfl
+
+theorem c07_shape_Overlay_checkPendingTreeMarshal :
+    Shapes.overlay_Overlay_checkPendingTreeMarshal =
+   ["pendingTreeLock.Lock", "if:!ok", "pendingTreeLock.Unlock", "return:",
+     "if:(o.treeStorage.Get(tm.TreeID)!=nil)", "tm.MakeTree", "if:(err!=nil)", "o.RegisterTree",
+     "pendingTreeLock.Unlock"] := rfl
+
+theorem c07_shape_TreeMarshal_MakeTree :
+    Shapes.tree_TreeMarshal_MakeTree =
+   ["if:(ro==nil)", "return:nil,xerrors.New(\"\")", "if:!ro.ID.Equal(tm.RosterID)",
+     "return:nil,xerrors.New(\"\")", "if:((len(tm.Children)!=1)||(tm.Children[]==nil))",
+     "return:nil,xerrors.New(\"\")", "Children[].MakeTreeFromList", "if:(err!=nil)",
+     "return:nil,xerrors.Errorf(\"\",err)", "tree.computeSubtreeAggregate", "return:tree,nil"] := rfl
+
+theorem c07_shape_TreeMarshal_MakeTreeFromList :
+    Shapes.tree_TreeMarshal_MakeTreeFromList =
+   ["ro.Search", "if:(idx<0)", "return:nil,xerrors.New(\"\")", "c.MakeTreeFromList",
+     "if:(err!=nil)", "return:nil,xerrors.Errorf(\"\",err)", "return:tn,nil"] := rfl
+
+theorem c07_shape_treeStorage_GetRoster :
+    Shapes.treestorage_treeStorage_GetRoster =
+   ["ts.Lock", "defer:ts.Unlock", "if:((tree!=nil)&&tree.Roster.ID.Equal(id))",
+     "return:tree.Roster", "return:nil"] := rfl
+
+theorem c07_shape_treeStorage_IsRequested :
+    Shapes.treestorage_treeStorage_IsRequested =
+   ["ts.Lock", "defer:ts.Unlock", "return:(ok&&(tree==nil))"] := rfl
+
 
 end C07
